@@ -434,6 +434,21 @@ theorem used_reachable (d : QueryDoc) (hu : (d.frags.map (·.name)).Nodup)
           · exact Reach.trans hbase (by rw [hff]; exact hV v hv))
         exact ⟨op, hop, Reach.step hr (by rw [hgf]; exact hn)⟩
 
+/-- without any hypothesis: a document the rule accepts satisfies the specification predicate -/
+theorem noUnusedFragments_spec_of_silent (s : Schema) (d : QueryDoc) (h : validate [noUnusedFragments] s d = .ok []) :
+    Spec.fragmentsMustBeUsed d = true := by
+  unfold Spec.fragmentsMustBeUsed
+  simp only [List.all_eq_true, List.contains_iff_mem]
+  intro f hf
+  rcases noUnusedFragments_sound s d h f hf with ⟨op, hop, hr⟩ | ⟨f1, hhead, hr⟩
+  · exact reach_mem_allSpreadNames hop hr
+  · have hf1 : f1 ∈ d.frags := List.mem_of_mem_head? hhead
+    cases hr with
+    | base hn => exact mem_allSpreadNames.2 (Or.inr ⟨f1, hf1, hn⟩)
+    | step _ hn =>
+      obtain ⟨g, _, hg, _, hn'⟩ := fragSpreads_defined hn
+      exact mem_allSpreadNames.2 (Or.inr ⟨g, hg, hn'⟩)
+
 theorem noUnusedFragments_iff (s : Schema) (d : QueryDoc) (hc : Spec.noFragmentCycles d = true)
     (hu : Spec.fragmentNameUniqueness d = true) :
     validate [noUnusedFragments] s d = .ok [] ↔ Spec.fragmentsMustBeUsed d = true := by
